@@ -66,6 +66,7 @@ type run struct {
 	onlyProp   string                // when set, findings and structural invariants of other properties do not end the run
 	syncRet    map[string]int64      // worker -> fake-clock time its last Synchronize call returned
 	syncActive map[string]bool       // workers that were inside Synchronize at the end of the previous segment
+	primary    string                // op line of the segment being judged
 	pending    *failure              // a model/implementation disagreement that does not stop the history: a violation found later in the same history takes precedence (see finish)
 }
 
@@ -241,6 +242,7 @@ func (r *run) window(primary string, an string) {
 	st := w.bq.VerifDumpState()
 	dump, assigned := w.canon(st)
 	hints := r.hints(assigned, an)
+	r.primary = primary
 	r.monitor(impl, st, dump)
 	for _, f := range windowChecks {
 		if r.fail == nil {
